@@ -37,7 +37,19 @@ struct Input {
 fn draw_input<T: RealNumber>(c: &mut Case, m: usize, n: usize, svd: bool) -> Option<Input> {
     let kinds: Vec<&str> = FULLRANK_KINDS.iter().cloned().collect();
     let kind = *c.rng.pick(&kinds);
-    let mc = if width::<T>() == "f32" && !svd && c.rng.bool(0.5) { 1e3 } else { maxcond::<T>(svd) };
+    let mc = if width::<T>() == "f32" && svd {
+        // the SVD solver drops singular values below max(m,n)·eps·s_max: inputs stay a factor 10 clear of that (2e4 for
+        // a 40-row f32 matrix, 1e6 for tiny ones), half of the draws below 1e3
+        if c.rng.bool(0.5) {
+            1e3
+        } else {
+            (0.1 / (m.max(n) as f64 * eps::<T>())).min(1e6).max(1e3)
+        }
+    } else if width::<T>() == "f32" && c.rng.bool(0.5) {
+        1e3
+    } else {
+        maxcond::<T>(svd)
+    };
     let a0 = fullrank(&mut c.rng, m, n, kind, mc);
     let scale = draw_scale(&mut c.rng);
     let a = if width::<T>() == "f32" { a0.scale(scale).round_f32() } else { a0.scale(scale) };
@@ -639,9 +651,9 @@ fn large(c: &mut Case) {
 fn main() {
     runner::main(Spec {
         property: "C01",
-        rule: "cases are drawn per family (lu, qr, chol, chol_indef, svd, svd_rankdef) from seeded structured generators: shape 1..40 (square / tall / wide), f64 or f32, nine structural kinds, rescaled by 1 / 10^u / 2^u with 10^u in [1e-12,1e12], condition number measured by an independent Jacobi SVD and bounded by 1e6 (in f32: 1e6 for LU / QR / Cholesky, half of the draws below 1e3; 1e3 for the SVD family), 1..4 right-hand sides; a case is non-trivial when max(m,n) >= 2 (all rank-deficient and indefinite cases are); distinct = distinct hash of (operation, width, entries of A and B); right-hand sides are dense or structured (identity, signed unit vectors, columns with exactly zero head / tail, one zero column); large: the six families on orders 41..140",
+        rule: "cases are drawn per family (lu, qr, chol, chol_indef, svd, svd_rankdef) from seeded structured generators: shape 1..40 (square / tall / wide), f64 or f32, nine structural kinds, rescaled by 1 / 10^u / 2^u with 10^u in [1e-12,1e12], condition number measured by an independent Jacobi SVD and bounded by 1e6 (in f32: 1e6 for LU / QR / Cholesky, half of the draws below 1e3; for the SVD family 0.1/(max(m,n)·eps), i.e. 2e4 at 40 rows, half of the draws below 1e3), 1..4 right-hand sides; a case is non-trivial when max(m,n) >= 2 (all rank-deficient and indefinite cases are); distinct = distinct hash of (operation, width, entries of A and B); right-hand sides are dense or structured (identity, signed unit vectors, columns with exactly zero head / tail, one zero column); large: the six families on orders 41..140",
         assumptions: vec![
-            "f32 inputs of the SVD family are restricted to condition number <= 1e3: the SVD solver applies the rank tolerance max(m,n)·eps·s_max, for which an f32 matrix of condition 1e6 is numerically rank-deficient; LU / QR / Cholesky are judged by backward-error residuals and get the full range",
+            "f32 inputs of the SVD family are restricted to condition number <= 0.1/(max(m,n)·eps): the SVD solver applies the rank tolerance max(m,n)·eps·s_max, for which an f32 matrix of condition 1e6 is numerically rank-deficient; LU / QR / Cholesky are judged by backward-error residuals and get the full range",
             "oracle arithmetic is f64 with compensated sums on the already-rounded inputs",
             "tolerance tau = 100·max(m,n)·eps relative to ‖A‖_F (and ‖X‖, ‖B‖ for solves)",
         ],
